@@ -711,3 +711,30 @@ def c05_l6(ctx):
             yield ok("C05-L6", tn, at(fd), {"nested": sorted(E)}, nontrivial=bool(E))
         else:
             yield bad("C05-L6", tn, at(fd), "encode delegates to %s, decode to %s: %s" % (sorted(E), sorted(D), ("the decoder reads %s by hand instead of through its decode" % sorted(E - D)) if E - D else ("the encoder writes %s by hand instead of through its encode" % sorted(D - E))))
+
+
+# ================================================================ C05-L7
+VALUE_ALTERING = ("min", "max", "clamp", "saturating_sub", "saturating_add", "saturating_mul", "wrapping_sub", "wrapping_add", "wrapping_mul", "rem_euclid", "abs", "abs_diff", "checked_rem", "next_power_of_two", "truncate", "dedup", "retain", "sort", "sort_unstable", "sort_by_key", "reverse")
+
+
+def is_value_altering_call(cal):
+    last = cal.split("::")[-1]
+    if last not in VALUE_ALTERING:
+        return False
+    return cal.startswith(("core::num", "std::cmp", "core::cmp", "std::vec::Vec", "alloc::vec::Vec", "core::slice", "alloc::slice")) or "Ord" in cal
+
+
+@rule("C05", "C05-L7", 1, "encoders write what they are given: no encoder clamps, saturates, wraps, sorts or drops part of a field (an encoder that repairs values maps different PDUs to the same octets, so a corrupted PDU can re-encode to the received octets and pass the CRC)", also=("C15",))
+def c05_l7(ctx):
+    fns = [f for f in ctx.prog.by_norm.values() if f.crate == "cfdp_core" and (f.name == "encode" or (f.root and ctx.prog.by_norm.get(f.root) is not None and ctx.prog.by_norm[f.root].name == "encode")) and "pdu" in f.norm]
+    if len(fns) < 30:
+        raise Anchor("C05-L7", "encode functions of the PDU types (%d found)" % len(fns))
+    n = 0
+    for f in fns:
+        for b, t in f.all_calls():
+            d, r, _ = ctx.prog.callee_of(t)
+            cal = r or d or ""
+            if is_value_altering_call(cal):
+                n += 1
+                yield bad("C05-L7", "%s:%s" % (short(f.impl_self_adt or f.root or f.norm), cal.split("::")[-1]) + ("#%d" % n if n > 1 else ""), at(f, t["span"]["line"]), "%s in an encoder alters the value being written: distinct PDUs get the same encoding (decode(encode(v)) != v, and the CRC check over the re-encoding accepts a corrupted PDU)" % cal)
+    yield ok("C05-L7", "encoders:verbatim", "%d encode functions" % len(fns), "%d value-altering calls" % n, nontrivial=(n == 0))
